@@ -1,5 +1,5 @@
 use num::bigint::RandBigInt;
-use num::{BigInt, One, Zero};
+use num::{BigInt, Integer, One, Zero};
 use std::collections::HashMap;
 
 use crate::ecm::{select_b, ECMConfig, EcmStats};
@@ -293,7 +293,26 @@ impl Point {
                 zacc_r[i] = zacc_r[i + 1].clone();
             }
         }
-        let invzprod = inv(&zprod, n)?;
+        let invzprod = match inv(&zprod, n) {
+            Ok(v) => v,
+            Err(g) => {
+                // The gcd of the whole product can be n itself although no single coordinate is a
+                // multiple of n (e.g. n = 2^100 * 15: the batch collects every prime power of n).
+                // A batch rejected for that reason is rejected again with every new draw, so look
+                // for a coordinate that shares a proper divisor with n first.
+                if &g == n {
+                    for z in &zarr {
+                        if *z != BigInt::zero() {
+                            let gz = z.gcd(n);
+                            if gz != BigInt::one() && &gz != n {
+                                return Err(gz);
+                            }
+                        }
+                    }
+                }
+                return Err(g);
+            }
+        };
         let mut result = Vec::with_capacity(k);
         for i in 0..k {
             if zarr[i] == BigInt::zero() {
